@@ -8,6 +8,7 @@ package main
 // frame reports an error.
 
 import (
+	"io"
 	"bytes"
 	"fmt"
 	"math/rand"
@@ -561,6 +562,11 @@ func checkC05(c *Ctx) {
 					rxCalls = append(rxCalls, strings.Join(classes, " "))
 					decStreams = append(decStreams, hx(data))
 					out, left, err := hcDecrypt(env.recv, bytes.NewReader(data))
+					if err == io.EOF {
+						// Decrypt returns a nil error at the end of the data; io.EOF as its error means the data ended inside a frame
+						c.Violate("Decrypt reports data that end inside a frame as the plain end of the data (io.EOF, not io.ErrUnexpectedEOF)", sc.id,
+							map[string]interface{}{"scenario": in, "call": ci, "delivered": classes}, "io.ErrUnexpectedEOF", "io.EOF")
+					}
 					// ---- direct oracle (model-free): walk the call's frames
 					wantErr := false
 					var want []byte
